@@ -70,11 +70,20 @@ Definition g2_ok (st : sess) (n : nat) : bool :=
   | f :: r => disjoint_all ((ks_dom f ++ pending_switch st) :: map ks_dom r)
   end.
 
+(* the same condition for Session.commit(), which releases every open savepoint *)
+Definition g2_all (st : sess) : bool :=
+  match stack st with
+  | [] => true
+  | f :: r => disjoint_all ((ks_dom f ++ pending_switch st) :: map ks_dom r)
+  end.
+
 (* [guard st p]: operation [p] in state [st] stays outside the defective regions:
    g1  handle.rollback() of a savepoint that is not the innermost open one (the inner ones are closed
        without _restore_snapshot);
    g2  handle.commit() merging a key switch into a scope that already recorded one for the same object
-       (dict.update loses the original key);
+       (dict.update loses the original key); the same condition is imposed on Session.commit() with open
+       savepoints (there the lost key is never used again - the outermost commit drops all snapshots -
+       but the invariant of the proof does not hold in between: a limit of the proof, not a defect);
    g3  add() of an object that _restore_snapshot sent back to transient while its _deleted flag stayed set;
    g5  delete() of an object that is already in the deleted state (it is put back into the identity map);
    g6  close() while an object is in the deleted state (expunge_all does not detach it).
@@ -98,6 +107,7 @@ Definition guard (st : sess) (p : op) : bool :=
       | Some (Some n) => g2_ok st n
       | _ => true
       end
+  | OCommit => g2_all st
   | OAdd o => negb (match okey (objs st o) with None => odelf (objs st o) | Some _ => false end)
   | ODel o => negb (odelf (objs st o))
   | OClose => negb (existsb (fun o => is_deleted_state (objs st o)) (all_objs st))
